@@ -733,7 +733,8 @@ pub fn supervisor_main(p: &Property, tier: Tier, extra: Option<&ExtraEvidence>) 
     let wall = t0.elapsed().as_secs_f64();
     let mut known_lines = vec![];
     for (sig, (n, what)) in &total.known {
-        known_lines.push(format!("KNOWN-FINDING: property={} {} [sig={} cases={}]", p.id, what, sig, n));
+        let text = known_findings().iter().find(|k| &k.sig == sig).map(|k| truncate(&k.text, 160)).unwrap_or_else(|| what.clone());
+        known_lines.push(format!("KNOWN-FINDING: property={} sig={} cases={} {}", p.id, sig, n, text));
     }
     write_evidence(p, tier, seed, &total, wall, violations.len(), extra, inconclusive.as_deref());
 
